@@ -181,7 +181,6 @@ Definition eval_op (op : string) (t : ty) (raw : list sexp) (o : option obs) : v
                 let m := unique_m [] t 0%N (fun ks => ks) lst in
                 let cmp := can_equal t in
                 let K := keep_first (eqb t) [] es in
-                let nilok := Bool.eqb (is_nil es) (match r with VNilS => true | _ => false end) in
                 mkv true
                     (match m with
                      | Ok (mr, ma) =>
@@ -197,8 +196,7 @@ Definition eval_op (op : string) (t : ty) (raw : list sexp) (o : option obs) : v
                      end)
                     (* pairwise non-Equal, covers every input element, only input elements; first
                        occurrences in order when the elements are not ==-comparable *)
-                    (nilok &&
-                     Nat.eqb (List.length (keep_first (eqb t) [] rs)) (List.length rs) &&
+                    (Nat.eqb (List.length (keep_first (eqb t) [] rs)) (List.length rs) &&
                      forallb (fun x => mem (eqb t) x rs) es &&
                      forallb (fun x => existsb (val_eqb x) es) rs &&
                      (cmp || vals_eqb rs K))%bool
